@@ -497,6 +497,9 @@ func (root *Root) resolveField(
 		field.ConType = t
 		ea = append(ea, field.sortArgs()...)
 		if 0 < len(ea) {
+			// Not resolvable in this container. Leave the container type
+			// unset so the check is repeated, and reported, every time.
+			field.ConType = nil
 			Errors(ea).in(field.key())
 			return
 		}
